@@ -123,15 +123,15 @@ func runC07H2(c *Ctx, ruleB1, ruleH string) {
 		d := drains[0].Instr
 		bad := existsPath(rf, d, func(in ssa.Instruction) bool {
 			ret, ok := in.(*ssa.Return)
-			return ok && !isNilConst(ret.Results[len(ret.Results)-1])
+			return ok && !isNilConst(unspill(ret, len(ret.Results)-1))
 		}, nil)
 		c.Check(ruleH, funcKey(rf)+":drain-last", d.Pos(), bad == nil, "nothing can fail after the buffer was drained", "ReadFrame can return an error after it drained the buffer: bytes are consumed although no frame was delivered")
 		// amount drained == size reported on the success return
 		same := false
 		for _, in := range instrsWhere(rf, isReturn) {
 			ret := in.(*ssa.Return)
-			if isNilConst(ret.Results[2]) && existsPath(rf, d, func(x ssa.Instruction) bool { return x == in }, nil) != nil {
-				if ret.Results[1] == d.Common().Args[0] || sameSum(ret.Results[1], d.Common().Args[0]) {
+			if isNilConst(unspill(ret, 2)) && existsPath(rf, d, func(x ssa.Instruction) bool { return x == in }, nil) != nil {
+				if unspill(ret, 1) == d.Common().Args[0] || sameSum(unspill(ret, 1), d.Common().Args[0]) {
 					same = true
 				}
 			}
